@@ -67,3 +67,70 @@ Fixpoint scope_cmd (ctx : list frame) (c : cmd) {struct c} : list reason :=
 
 Definition scope_program (p : program) : list reason := flat_map (scope_clist scope_cmd []) p.
 Definition well_scoped (p : program) : Prop := scope_program p = [].
+
+(** ** A class that lives in brush's *parser*, not in the interpreter (finding KF-C02-esac-rparen):
+    a [case] command anywhere inside a [( ... )] subshell.  brush-parser rejects such a subshell when
+    its last list item contains the case command and is not terminated by [;] or a newline.
+    This predicate is not part of [well_scoped] (the semantics is unaffected); the driver uses it to
+    attribute a syntax error of brush on such a program to that finding. *)
+Section Any.
+  Variable any_cmd : cmd -> bool.
+  Definition any_pipeline (p : pipeline) : bool := existsb any_cmd (snd p).
+  Definition any_andor (a : andor) : bool := any_pipeline (fst a) || existsb (fun x => any_pipeline (snd x)) (snd a).
+  Definition any_clist (l : clist) : bool := existsb any_andor l.
+End Any.
+
+(** [f] holds of some command inside [c] (including [c]) *)
+Fixpoint sub_any (f : cmd -> bool) (c : cmd) {struct c} : bool :=
+  f c ||
+  match c with
+  | Leaf _ | Tick _ _ => false
+  | Brace b | Subshell b | For _ _ b => any_clist (sub_any f) b
+  | If c t elses =>
+      any_clist (sub_any f) c || any_clist (sub_any f) t ||
+      existsb (fun e => match fst e with Some ec => any_clist (sub_any f) ec | None => false end
+                        || any_clist (sub_any f) (snd e)) elses
+  | Loop _ c b => any_clist (sub_any f) c || any_clist (sub_any f) b
+  | Case arms => existsb (fun a => match snd a with Some b => any_clist (sub_any f) b | None => false end) arms
+  | FunDef _ body => sub_any f body
+  end.
+
+Definition is_case (c : cmd) : bool := match c with Case _ => true | _ => false end.
+Definition case_in_subshell (c : cmd) : bool :=
+  match c with Subshell b => any_clist (sub_any is_case) b | _ => false end.
+Definition parser_hazard (p : program) : bool := existsb (any_clist (sub_any case_in_subshell)) p.
+
+(** ** A shape the interpreter *model* does not cover: a shell function called from a stage of a
+    multi-stage pipeline (not inside a nested subshell) whose body lets a break/continue escape.
+    brush then raises its "not yet implemented" error inside the stage's task and the error
+    propagates out of [Pipeline::execute] as an [Err] (aborting the enclosing lists up to the
+    program level), which the model has no outcome for.  This can only happen in programs of the
+    known class [RStray]; for those the driver compares brush with the specification only. *)
+Fixpoint has_call (c : cmd) {struct c} : bool :=
+  match c with
+  | Leaf (LCall _) => true
+  | Leaf _ | Tick _ _ | Subshell _ | FunDef _ _ => false
+  | Brace b | For _ _ b => any_clist has_call b
+  | If c t elses =>
+      any_clist has_call c || any_clist has_call t ||
+      existsb (fun e => match fst e with Some ec => any_clist has_call ec | None => false end
+                        || any_clist has_call (snd e)) elses
+  | Loop _ c b => any_clist has_call c || any_clist has_call b
+  | Case arms => existsb (fun a => match snd a with Some b => any_clist has_call b | None => false end) arms
+  end.
+Definition pl_stage_call (p : pipeline) : bool :=
+  match snd p with [_] => false | cs => existsb has_call cs end.
+Definition cl_stage_call (l : clist) : bool :=
+  existsb (fun a : andor => pl_stage_call (fst a) || existsb (fun x => pl_stage_call (snd x)) (snd a)) l.
+Definition cmd_stage_call (c : cmd) : bool :=
+  match c with
+  | Brace b | Subshell b | For _ _ b => cl_stage_call b
+  | If c t elses =>
+      cl_stage_call c || cl_stage_call t ||
+      existsb (fun e => match fst e with Some ec => cl_stage_call ec | None => false end || cl_stage_call (snd e)) elses
+  | Loop _ c b => cl_stage_call c || cl_stage_call b
+  | Case arms => existsb (fun a => match snd a with Some b => cl_stage_call b | None => false end) arms
+  | _ => false
+  end.
+Definition stage_call_hazard (p : program) : bool :=
+  existsb cl_stage_call p || existsb (any_clist (sub_any cmd_stage_call)) p.
